@@ -205,6 +205,32 @@ func spliceTemplate(text string, mode byte) (string, bool) {
 	return sb.String(), true
 }
 
+// hostileRunes: ASCII, format verbs, regexp and comment metacharacters, and letters whose case
+// mappings change the encoded length (K U+212A, Ω U+2126, Å U+212B, ẞ U+1E9E, İ U+0130, ſ U+017F, ǅ U+01C5),
+// combining marks, zero-width and bidi characters, line/paragraph separators.
+var hostileRunes = []rune("abcxyzABCXYZ0189 \t%sdvq+#-*_.,:;=/\\\"'`()[]{}<>|^$?!@&~" +
+	"\u212a\u2126\u212b\u1e9e\u0130\u0131\u017f\u01c5\u00df\u00e9\u0301\u200b\u200d\u202e\u2028\u2029\u00a0\ufeff\U0001f600\u4e16")
+
+var splicePrefixes = []string{"", "", "", "go:generate ", "go:build ", "nolint:", "nolint", "lint:ignore ", "line ", "export ", "extern ", "TODO", "TODO: ", "FIXME(", "Deprecated: ", "deprecated, ",
+	"+build ", "go:embed ", "nosec ", "noinspection ", "region ", "sys ", "sysnb ", "goland:", "%", "^", "(?i)", "[", "\\"}
+
+// drawSpliceProgram: a text over hostileRunes (0-40 runes, optionally after a directive-like prefix)
+// spliced as constant / comment into the typed template.
+func drawSpliceProgram(rt *rapid.T, env *gen.Env) (*core.Program, *gen.ProgCase, bool) {
+	text := pickT(rt, "splicePrefix", splicePrefixes) + rapid.StringOfN(rapid.RuneFrom(hostileRunes), 0, 40, -1).Draw(rt, "spliceText")
+	mode := byte(rapid.IntRange(0, 3).Draw(rt, "spliceMode"))
+	src, ok := spliceTemplate(text, mode)
+	if !ok {
+		return nil, nil, false
+	}
+	pc := &gen.ProgCase{Origin: "splice", Muts: []string{"splice-" + strconv.Itoa(int(mode))}, Files: []core.Source{{Name: "sp.go", Text: src}}}
+	p := env.Load(pc.Files)
+	if !p.OK() {
+		return nil, nil, false
+	}
+	return p, pc, true
+}
+
 func FuzzSplice(f *testing.F) {
 	fuzzWarm(f)
 	for _, s := range []string{"", "a", "%s", "%d%%", "^a|b$", "(a)(a)*", "[a-z", `\d{0,1}`, "Deprecated: x", "nolint:gocritic", "nolint", "TODO", "fmt.Println(1)",
